@@ -623,6 +623,105 @@ def run(prog, pid, clauses):
         out.append(ob("reset-precedes-every-statement-parse", not problems, dict(call_sites=sites, offenders=problems),
                       {view.methods[m].key for m in ("process_line", "parse_data") if m in view.methods}, pid))
 
+    if "no-shared-mutable-skeleton" in clauses:
+        # C14 / C15 / C03: a module-level or class-level dict / list / set display is ONE object for the whole process.
+        # Looking things up in it is fine; letting it - or, through a shallow copy, the mutable values nested in it -
+        # become part of a parser's working data makes every table / statement / parser object share that object.
+        # Obligation: inside functions, such a name is only used for read-only access (subscript load, `in`, iteration,
+        # .get / .keys / .values / .items, len, deepcopy) - never aliased, returned, stored, passed to setdefault / update,
+        # and never shallow-copied (dict(X), {**X}, X.copy(), list(X), copy.copy(X)) when its display nests another
+        # mutable display.
+        def nested_mutable(display):
+            for ch in ast.walk(display):
+                if ch is not display and isinstance(ch, (ast.Dict, ast.List, ast.Set, ast.ListComp, ast.DictComp, ast.SetComp)):
+                    return True
+                if ch is not display and isinstance(ch, ast.Call) and isinstance(ch.func, ast.Name) and ch.func.id in ("dict", "list", "set", "defaultdict"):
+                    return True
+            return False
+        shared = {}      # (module, name) -> (lineno, nested?)   and ("class", cname, attr)
+        class_attrs2 = {}
+        for mod, tree in prog.trees.items():
+            if not mod.startswith(PKG) or mod.endswith(".parsetab"):
+                continue
+            for st in tree.body:
+                tgt, val = None, None
+                if isinstance(st, ast.Assign) and len(st.targets) == 1 and isinstance(st.targets[0], ast.Name):
+                    tgt, val = st.targets[0].id, st.value
+                elif isinstance(st, ast.AnnAssign) and isinstance(st.target, ast.Name) and st.value is not None:
+                    tgt, val = st.target.id, st.value
+                if tgt and isinstance(val, (ast.Dict, ast.List, ast.Set)):
+                    shared[(mod, tgt)] = (st.lineno, nested_mutable(val))
+            for cd in [n for n in ast.walk(tree) if isinstance(n, ast.ClassDef)]:
+                for st in cd.body:
+                    tgt, val = None, None
+                    if isinstance(st, ast.Assign) and len(st.targets) == 1 and isinstance(st.targets[0], ast.Name):
+                        tgt, val = st.targets[0].id, st.value
+                    elif isinstance(st, ast.AnnAssign) and isinstance(st.target, ast.Name) and st.value is not None:
+                        tgt, val = st.target.id, st.value
+                    if tgt and isinstance(val, (ast.Dict, ast.List, ast.Set)) and not tgt.startswith("__"):
+                        class_attrs2[tgt] = (mod, cd.name, st.lineno, nested_mutable(val))
+        bad, funcs = [], set()
+        READ_ONLY = {"get", "keys", "values", "items", "index", "count"}
+        for mod, tree in prog.trees.items():
+            if not mod.startswith(PKG) or mod.endswith(".parsetab"):
+                continue
+            imported = {}     # local name -> (module, name) for `from x import NAME`
+            for st in tree.body:
+                if isinstance(st, ast.ImportFrom) and st.module:
+                    for a in st.names:
+                        for (m2, n2) in shared:
+                            if n2 == a.name and m2.endswith(st.module.split(".")[-1]):
+                                imported[a.asname or a.name] = (m2, n2)
+            for fn in ast.walk(tree):
+                if not isinstance(fn, (ast.FunctionDef, ast.AsyncFunctionDef)):
+                    continue
+                parents = {}
+                for n in ast.walk(fn):
+                    for c in ast.iter_child_nodes(n):
+                        parents[id(c)] = n
+                local_stores = {t.id for n in ast.walk(fn) for t in (n.targets if isinstance(n, ast.Assign) else []) if isinstance(t, ast.Name)} | {a.arg for a in fn.args.args}
+                for n in ast.walk(fn):
+                    ref = None
+                    if isinstance(n, ast.Name) and isinstance(n.ctx, ast.Load) and n.id not in local_stores:
+                        if (mod, n.id) in shared:
+                            ref = ("%s.%s" % (mod, n.id),) + shared[(mod, n.id)]
+                        elif n.id in imported:
+                            ref = ("%s.%s" % imported[n.id],) + shared[imported[n.id]]
+                    elif isinstance(n, ast.Attribute) and isinstance(n.ctx, ast.Load) and isinstance(n.value, ast.Name) and n.value.id in ("self", "cls") and n.attr in class_attrs2:
+                        m2, cn, ln, nest = class_attrs2[n.attr]
+                        ref = ("%s.%s.%s" % (m2, cn, n.attr), ln, nest)
+                    if ref is None:
+                        continue
+                    funcs.add("%s.%s" % (mod[len(PKG) + 1:], fn.name))
+                    name, lineno, nested = ref
+                    par = parents.get(id(n))
+                    gp = parents.get(id(par)) if par is not None else None
+                    ok = False
+                    if isinstance(par, ast.Subscript) and par.value is n and isinstance(par.ctx, ast.Load):
+                        ok = True
+                    elif isinstance(par, ast.Compare):
+                        ok = True
+                    elif isinstance(par, (ast.For, ast.comprehension)) and par.iter is n:
+                        ok = True
+                    elif isinstance(par, ast.Attribute) and isinstance(gp, ast.Call) and gp.func is par and par.attr in READ_ONLY:
+                        ok = True
+                    elif isinstance(par, ast.Call) and isinstance(par.func, ast.Name) and par.func.id in ("len", "deepcopy", "sorted", "tuple", "frozenset", "any", "all", "isinstance"):
+                        ok = True
+                    elif isinstance(par, ast.Call) and isinstance(par.func, ast.Attribute) and par.func.attr == "deepcopy":
+                        ok = True
+                    elif isinstance(par, ast.Call) and isinstance(par.func, ast.Name) and par.func.id in ("dict", "list", "set") and not nested:
+                        ok = True      # shallow copy of a flat table of immutable values
+                    elif isinstance(par, ast.Attribute) and isinstance(gp, ast.Call) and gp.func is par and par.attr == "copy" and not nested:
+                        ok = True
+                    elif isinstance(par, ast.Dict) and not nested and n in par.values and par.keys[par.values.index(n)] is None:
+                        ok = True      # {**X} of a flat table
+                    elif isinstance(par, (ast.BoolOp, ast.UnaryOp, ast.If, ast.IfExp)) and not isinstance(par, ast.IfExp):
+                        ok = True      # truth test
+                    if not ok:
+                        bad.append("%s.%s line %d uses the process-wide %s (defined line %d%s) other than for read-only access: %s" % (
+                            mod, fn.name, n.lineno, name, lineno, ", nests mutable values" if nested else "", ast.unparse(par)[:90] if par is not None else "?"))
+        out.append(ob("process-wide-mutable-values-are-read-only", not bad, dict(offenders=sorted(set(bad)), shared_names=len(shared) + len(class_attrs2)), funcs, pid))
+
     if "ordered-iteration" in clauses:
         # C14: the order of everything that reaches the result must not depend on the hash seed.  Strings hash
         # differently in every process, so iterating over a set (or the result of a set operation) and letting the
